@@ -15,9 +15,11 @@
 
    Family "design": TLC proves Impl = Decl (as bags) for every ring size, every placement of the keys on the
                     nodes, every asking node, every content assignment and every prefix.
-   Family "cases":  TLC enumerates ring size x content assignment and emits the declarative answer for every
-                    prefix; drv/listkeys builds each case as a real ring and asks every node.
-   Keys and prefixes are sequences of one-letter strings (TLC cannot take strings apart). *)
+   Family "cases":  TLC enumerates every content assignment and emits the declarative answer for every prefix
+                    (the answer does not depend on the ring); checks/c10.py crosses them with ring sizes 1..MaxN
+                    and node ids, drv/listkeys builds each one as a real ring and asks every node.
+   Keys and prefixes are sequences of one-letter strings (TLC cannot take strings apart); keys are referred to
+   by their index in KeySeq. *)
 EXTENDS Integers, Sequences, FiniteSets, Bags, TLC, Json
 
 CONSTANTS Family,        \* "design" | "cases"
@@ -29,15 +31,15 @@ Emit(r) == PrintT("@@" \o ToJson(r))
 
 KeySeq == <<  <<"a">>, <<"a", "b">>, <<"a", "b", "c">>, <<"b">>, <<>>  >>
 NKeys == IF EmptyKey THEN 5 ELSE 4
-Keys == {KeySeq[i] : i \in 1..NKeys}
 Prefixes == { <<>>, <<"a">>, <<"a", "b">>, <<"a", "b", "c">>, <<"b">>, <<"c">> }
 Kinds == {"SIMPLE", "PREFIX", "LEASE"}
 
 IsPrefix(p, k) == Len(p) <= Len(k) /\ SubSeq(k, 1, Len(p)) = p
+WithPrefix == [p \in Prefixes |-> {i \in 1..Len(KeySeq) : IsPrefix(p, KeySeq[i])}]     \* constant table
 
 -------------------------------------------------------------------------------
-(* the property *)
-DeclSet(K, content, p) == {x \in K \X Kinds : IsPrefix(p, x[1]) /\ x[2] \in content[x[1]]}
+(* the property.  K = number of keys in play, content[i] = the kinds of data key i holds *)
+DeclSet(K, content, p) == {x \in (WithPrefix[p] \cap 1..K) \X Kinds : x[2] \in content[x[1]]}
 DeclBag(K, content, p) == SetToBag(DeclSet(K, content, p))          \* every pair exactly once
 
 -------------------------------------------------------------------------------
@@ -53,7 +55,7 @@ Walk(n, self, next, acc, seen) ==
 
 (* one store: keys it holds x kinds present, filtered by prefix; a store lists a (key, kind) once *)
 StoreList(K, own, content, node, p) ==
-  SetToBag({x \in K \X Kinds : own[x[1]] = node /\ IsPrefix(p, x[1]) /\ x[2] \in content[x[1]]})
+  SetToBag({x \in (WithPrefix[p] \cap 1..K) \X Kinds : own[x[1]] = node /\ x[2] \in content[x[1]]})
 
 RECURSIVE Concat(_, _, _, _, _)
 Concat(K, own, content, nodes, p) ==
@@ -65,18 +67,16 @@ Impl(K, n, own, content, self, p) ==
   [ok |-> w.ok, bag |-> IF w.ok THEN Concat(K, own, content, w.nodes, p) ELSE EmptyBag]
 
 -------------------------------------------------------------------------------
-DKeys == {KeySeq[i] : i \in 1..DesignKeys}
-
-DesignCases == UNION {[n : {n}, own : [DKeys -> 1..n], self : 1..n, content : [DKeys -> SUBSET Kinds]] : n \in 1..MaxN}
-TableCases  == [n : 1..MaxN, content : [Keys -> SUBSET Kinds]]
+DesignCases == UNION {[n : {n}, own : [1..DesignKeys -> 1..n], self : 1..n, content : [1..DesignKeys -> SUBSET Kinds]] : n \in 1..MaxN}
+TableCases  == [content : [1..NKeys -> SUBSET Kinds]]
 
 VARIABLES c, done
 vars == <<c, done>>
 
 Cases == IF Family = "design" THEN DesignCases ELSE TableCases
 
-CaseJson(x)  == [n |-> x.n, content |-> {[k |-> k, kinds |-> x.content[k]] : k \in Keys}]
-Expected(x)  == {[p |-> p, ks |-> DeclSet(Keys, x.content, p)] : p \in Prefixes}
+CaseJson(x)  == [content |-> [i \in 1..NKeys |-> [k |-> KeySeq[i], kinds |-> x.content[i]]]]
+Expected(x)  == {[p |-> p, ks |-> {<<KeySeq[y[1]], y[2]>> : y \in DeclSet(NKeys, x.content, p)}] : p \in Prefixes}
 
 Init == c \in Cases /\ done = FALSE
 Next == /\ done = FALSE /\ done' = TRUE /\ c' = c
@@ -85,18 +85,18 @@ Spec == Init /\ [][Next]_vars
 
 (* theorem (family design): walk + fan-out returns exactly the declared multiset, from every node *)
 ImplMeetsDecl ==
-  Family = "design" =>
+  (Family = "design" /\ done) =>
     \A p \in Prefixes :
-      LET r == Impl(DKeys, c.n, c.own, c.content, c.self, p) IN
-      r.ok /\ r.bag = DeclBag(DKeys, c.content, p)
+      LET r == Impl(DesignKeys, c.n, c.own, c.content, c.self, p) IN
+      r.ok /\ r.bag = DeclBag(DesignKeys, c.content, p)
 
-(* family cases: the emitted expectation is what the implementation model answers for a spread placement
-   (key i on node i mod n), and it only ever shrinks when the prefix grows *)
-RoundRobin(n) == [k \in Keys |-> ((CHOOSE i \in 1..NKeys : KeySeq[i] = k) % n) + 1]
+(* family cases: the emitted expectation is what the implementation model answers on the largest ring for a
+   spread placement (key i on node i mod n), and it only ever shrinks when the prefix grows *)
+RoundRobin(n) == [i \in 1..NKeys |-> (i % n) + 1]
 CasesConsistent ==
-  Family = "cases" =>
-    /\ \A p \in Prefixes : \A self \in 1..c.n :
-         Impl(Keys, c.n, RoundRobin(c.n), c.content, self, p).bag = DeclBag(Keys, c.content, p)
-    /\ \A p, q \in Prefixes : IsPrefix(p, q) => DeclSet(Keys, c.content, q) \subseteq DeclSet(Keys, c.content, p)
-    /\ DeclSet(Keys, c.content, <<>>) = {x \in Keys \X Kinds : x[2] \in c.content[x[1]]}
+  (Family = "cases" /\ done) =>
+    /\ \A p \in Prefixes :
+         Impl(NKeys, MaxN, RoundRobin(MaxN), c.content, 1, p).bag = DeclBag(NKeys, c.content, p)
+    /\ \A p, q \in Prefixes : IsPrefix(p, q) => DeclSet(NKeys, c.content, q) \subseteq DeclSet(NKeys, c.content, p)
+    /\ DeclSet(NKeys, c.content, <<>>) = {x \in (1..NKeys) \X Kinds : x[2] \in c.content[x[1]]}
 ===============================================================================
